@@ -17,6 +17,4 @@ def run(out, explore=0):
 
 
 def replay(out, rp):
-    out.coverage.update({"programs": 1, "disagreements_checked": 0, "samples": [rp]})
-    print(rp.get("definition"))
-    print(rp.get("output"))
+    L.replay_item(out, rp, ("c05", "c01"), verdict)
